@@ -256,6 +256,12 @@ def _execute(files: list, api: str, sp: str, as_path: bool, edit: list, st: Opti
                                 obs['skipped'].append(step)
                             elif step[0] == 'edit':
                                 _edit(mapping[by_rel[step[1]][0]])
+                            elif step[0] == 'respell':
+                                # take the model out and put it back under another spelling of the same path: the file is
+                                # "removed" and "added" in one session and must simply hold the (edited) model afterwards
+                                k0 = by_rel[step[1]][0]
+                                model = mapping.pop(k0)
+                                mapping[os.path.join(os.path.dirname(k0) or '.', '.', os.path.basename(k0))] = model
                             else:
                                 del mapping[by_rel[step[1]][0]]
                         if cut == len(steps):
@@ -420,6 +426,10 @@ def _judge(files: list, api: str, sp: str, as_path: bool, edit: list, st: Option
         removed = os.path.join('dir', st[1])
         del exp[removed]
         same.discard(removed)
+    if st and st[0] == 'respell':
+        # removed under one spelling and added under another: delete + create is what was asked for, so the file may be
+        # rewritten; its content must be the (edited) model
+        same.discard(os.path.join('dir', st[1]))
     if st and st[0] == 'add':
         added = os.path.join('dir', st[1])
         exp[added] = obs['added'][st[1]]
@@ -564,7 +574,8 @@ def bodies(files: list, api: str, level: str) -> list:
     if nomatch:
         return [([], None, None)]
     subsets = [list(c) for n in range(len(visited) + 1) for c in itertools.combinations(visited, n)]
-    structs: list = [['del', v] for v in visited] + [['add', 'new.bean', 'l'], ['add', 'newsub/n.bean', 'l']]
+    structs: list = [['del', v] for v in visited] + [['add', 'new.bean', 'l'], ['add', 'newsub/n.bean', 'l']] + \
+        [['respell', v] for v in (visited if level == 'full' else visited[-1:])]
     if level == 'full':
         structs += [['add', 'new.bean', 'c']]
     out: list = []
